@@ -833,9 +833,10 @@ fn payload_digest(p: &[u8]) -> String {
 
 // ------------------------------------------------------------------------------------------------ reference scan
 
-/// walks a layer payload along the real reader's path and reports whether it would construct a non-scalar `char`
-/// (an abort in the debug profile, which must not happen inside this process)
-fn payload_would_abort(chunks: &[&[u8]]) -> bool {
+/// walks a layer payload along the real reader's path and reports whether it reaches a character field that is not a
+/// Unicode scalar value.  (The pinned loader aborted the process there; the repaired one returns
+/// `Err("invalid character …")`, so such payloads are loaded like any other and only counted.)
+fn payload_has_nonscalar(chunks: &[&[u8]]) -> bool {
     fn rows(b: &[u8], mut o: usize, w: usize, h: usize, checked: bool) -> Option<bool> {
         for _y in 0..h {
             if o >= b.len() {
@@ -1081,12 +1082,8 @@ fn one_doc(run: &mut Run, d: &DocSpec, opts: &Opts) {
         run.case(&op, &keys.join(" "));
     }
     // ---- load
-    // VERIF_C07_NOSCAN=1 (debugging aid): load in-process even then, to watch the abort happen
-    if std::env::var("VERIF_C07_NOSCAN").is_err() && layer_chunks.iter().any(|cs| !cs.is_empty() && payload_would_abort(cs)) {
-        if opts.oracle {
-            run.oracle_fail("load-abort", &input, "the saved file makes the loader build a non-scalar char (process abort); not loaded in-process");
-        }
-        return;
+    if layer_chunks.iter().any(|cs| !cs.is_empty() && payload_has_nonscalar(cs)) {
+        run.count("saved-nonscalar-char");
     }
     set_inflight(&if opts.oracle { input.clone() } else { format!("outside-domain:{input}") });
     let loaded = match load(&bytes) {
@@ -1320,15 +1317,99 @@ fn malformed(run: &mut Run, rng: &mut Rng, base: &[Vec<u8>]) {
         }
     }
     let refs: Vec<&[u8]> = cs.iter().map(|c| c.as_slice()).collect();
-    if payload_would_abort(&refs) {
-        run.count("malformed-skipped-abort");
-        return;
+    if payload_has_nonscalar(&refs) {
+        run.count("malformed-nonscalar-char");
     }
     run.count(&format!("malformed-kind{kind}"));
     set_inflight("malformed-payload");
     let obs = observe_layer_load(&cs);
     run.count(&format!("malformed-{}", obs.split(' ').next().unwrap_or("")));
     run.case(&format!("icydraw dec {}", cs.iter().map(|p| hex(p)).collect::<Vec<_>>().join(" ")), &obs);
+}
+
+/// the cell data of a one-chunk layer moved (whole, cut, damaged or in pieces) into continuation chunks `LAYER_0~k`:
+/// the continuation decoder makes the same length checks as the decoder of the first chunk
+fn malformed_cont(run: &mut Run, rng: &mut Rng, base: &[Vec<u8>]) {
+    if base.len() != 1 || base[0].len() < 45 {
+        return;
+    }
+    let b = &base[0];
+    let tl = u32::from_le_bytes(b[0..4].try_into().unwrap()) as usize;
+    let start = 4 + tl + 41; // start of the cell data
+    if b.len() <= start {
+        return;
+    }
+    let data = b[start..].to_vec();
+    // how much of the cell data stays in the first chunk (0 = none; otherwise a cut anywhere, mostly inside a row)
+    let kind = rng.below(6);
+    let keep = if kind == 5 { rng.below(data.len() as u64 + 1) as usize } else { 0 };
+    let mut first = b[..start + keep].to_vec();
+    first[start - 8..start].copy_from_slice(&(keep as u64).to_le_bytes());
+    let mut rest = data[keep..].to_vec();
+    let mut cs: Vec<Vec<u8>> = vec![first];
+    match kind {
+        0 | 5 => cs.push(rest),
+        1 => {
+            // cut anywhere
+            let n = rng.below(rest.len() as u64 + 1) as usize;
+            rest.truncate(n);
+            cs.push(rest);
+        }
+        2 => {
+            // a damaged byte
+            let n = rng.below(rest.len() as u64) as usize;
+            rest[n] ^= 1 << rng.below(8);
+            cs.push(rest);
+        }
+        3 => {
+            // two continuation chunks, split anywhere
+            let n = rng.below(rest.len() as u64 + 1) as usize;
+            let tail = rest.split_off(n);
+            cs.push(rest);
+            cs.push(tail);
+        }
+        _ => {
+            // trailing bytes behind the rows
+            let n = 1 + rng.below(3) as usize;
+            rest.extend(rng.bytes(n));
+            cs.push(rest);
+        }
+    }
+    let refs: Vec<&[u8]> = cs.iter().map(|c| c.as_slice()).collect();
+    if payload_has_nonscalar(&refs) {
+        run.count("malformed-nonscalar-char");
+    }
+    run.count(&format!("malformed-cont-kind{kind}"));
+    set_inflight("malformed-continuation");
+    let obs = observe_layer_load(&cs);
+    run.count(&format!("malformed-cont-{}", obs.split(' ').next().unwrap_or("")));
+    run.case(&format!("icydraw dec {}", cs.iter().map(|p| hex(p)).collect::<Vec<_>>().join(" ")), &obs);
+}
+
+/// a continuation chunk whose layer number names no loaded layer (no layer at all, or one layer and a number >= 1)
+fn cont_unseen(run: &mut Run, rng: &mut Rng, base: &[Vec<u8>]) {
+    let mut cs: Vec<(String, Vec<u8>)> = vec![("ICED".into(), default_hdr())];
+    let have = if base.len() == 1 && base[0].len() <= 4096 && rng.chance(1, 2) { 1 } else { 0 };
+    if have == 1 {
+        cs.push(("LAYER_0".into(), base[0].clone()));
+    }
+    let n = have + rng.below(3);
+    let len = rng.below(6) as usize;
+    cs.push((format!("LAYER_{n}~{}", 1 + rng.below(2)), rng.bytes(len)));
+    cs.push(("END".into(), vec![]));
+    let png = png_build(&cs);
+    set_inflight("continuation-of-undefined-layer");
+    let obs = match load(&png) {
+        Ok(Ok(b)) => format!("ok layers={}", b.layers.len()),
+        Ok(Err(e)) => classify_err(&e).to_string(),
+        Err(_) => "fail:panic".into(),
+    };
+    run.count(&format!("cont-unseen-{obs}"));
+    let mut op = String::from("icydraw load");
+    for (k, p) in &cs {
+        let _ = write!(op, " {}={}", k, hex(p));
+    }
+    run.case(&op, &obs);
 }
 
 fn malformed_header(run: &mut Run, rng: &mut Rng) {
@@ -1589,8 +1670,8 @@ fn boundary_docs() -> Vec<DocSpec> {
     v
 }
 
-/// The real loader can ABORT the process (`char::from_u32_unchecked` on a non-scalar value in the debug profile), which
-/// `catch_unwind` cannot stop.  So the work runs in a child process writing to `<out>/child`; the parent merges the
+/// The pinned loader could ABORT the process (`char::from_u32_unchecked` on a non-scalar value in the debug profile), which
+/// `catch_unwind` cannot stop (the repaired loader returns `Err` there; the supervision stays as a safety net).  So the work runs in a child process writing to `<out>/child`; the parent merges the
 /// child's files and, if the child died, reports the document whose load was in flight as an oracle failure.
 fn supervise(run: &mut Run) {
     let args: Vec<String> = std::env::args().collect();
@@ -1773,6 +1854,14 @@ fn run_child(run: &mut Run, seed: u64, thorough: bool, replay: Option<&str>, cor
         for _ in 0..n_mal {
             let b = rng.pick(&bases).clone();
             malformed(run, &mut rng, &b);
+        }
+        for _ in 0..n_mal / 4 {
+            let b = rng.pick(&bases).clone();
+            malformed_cont(run, &mut rng, &b);
+        }
+        for _ in 0..(if thorough { 200 } else { 20 }) {
+            let b = rng.pick(&bases).clone();
+            cont_unseen(run, &mut rng, &b);
         }
     }
     for _ in 0..(if thorough { 1500 } else { 100 }) {
